@@ -1615,7 +1615,9 @@ pub fn evaluate(env: &Rc<RefCell<Env>>, expr: &LocExpr) -> NRes<Obj> {
             let val = evaluate(env, e)?;
             let arg = {
                 let mut ptr = try_borrow_mut_nres(env, "internal", "call")?;
-                ptr.internal_stack.pop().expect("internal call 1")
+                ptr.internal_stack
+                    .pop()
+                    .ok_or_else(|| NErr::empty_error("internal call: stack too short".to_string()))?
             };
             call1(env, val, arg)
         }
@@ -1623,6 +1625,11 @@ pub fn evaluate(env: &Rc<RefCell<Env>>, expr: &LocExpr) -> NRes<Obj> {
             let val = evaluate(env, e)?;
             let (arg2, arg1) = {
                 let mut ptr = try_borrow_mut_nres(env, "internal", "call")?;
+                if ptr.internal_stack.len() < 2 {
+                    return Err(NErr::empty_error(
+                        "internal call: stack too short".to_string(),
+                    ));
+                }
                 (
                     ptr.internal_stack.pop().expect("internal call 2"),
                     ptr.internal_stack.pop().expect("internal call 1"),
@@ -1635,6 +1642,11 @@ pub fn evaluate(env: &Rc<RefCell<Env>>, expr: &LocExpr) -> NRes<Obj> {
             let args = {
                 let mut ptr = try_borrow_mut_nres(env, "internal", "call")?;
                 let n = ptr.internal_stack.len();
+                if n < *argc {
+                    return Err(NErr::empty_error(
+                        "internal call: stack too short".to_string(),
+                    ));
+                }
                 ptr.internal_stack.split_off(n - argc)
             };
             call(env, val, args)
